@@ -4,6 +4,7 @@ import (
 	"encoding/json"
 	"fmt"
 	"math/rand"
+	"sort"
 	"strings"
 )
 
@@ -168,7 +169,37 @@ func (lg *locGen) queryOp(o map[string]interface{}) {
 	qg := &queryGen{lg: lg, tpl: tpl}
 	o["op"] = "query"
 	var q map[string]interface{}
-	if lg.r.Intn(3) == 0 {
+	if lg.r.Intn(6) == 0 && len(lg.facts) > 0 {
+		// an `or` whose branches bind DIFFERENT variables (or none), followed by a pattern that uses
+		// them: the pattern conjunct receives incoming bindings of different shapes and must be
+		// instantiated and searched for each of them separately
+		src := lg.facts[lg.r.Intn(len(lg.facts))]
+		var keys []string
+		for k := range src {
+			keys = append(keys, k)
+		}
+		sort.Strings(keys)
+		if len(keys) > 0 {
+			k1 := keys[lg.r.Intn(len(keys))]
+			k2 := keys[lg.r.Intn(len(keys))]
+			br := func(k, v string) map[string]interface{} {
+				return map[string]interface{}{"pattern": map[string]interface{}{k: v}}
+			}
+			branches := []interface{}{br(k1, "?y"), br(k2, "?x")}
+			if lg.r.Intn(2) == 0 {
+				branches = []interface{}{map[string]interface{}{}, br(k2, "?x"), br(k1, "?y")}
+			}
+			lg.r.Shuffle(len(branches), func(i, j int) { branches[i], branches[j] = branches[j], branches[i] })
+			last := map[string]interface{}{k2: "?x"}
+			if lg.r.Intn(2) == 0 {
+				last[k1] = "?y"
+			}
+			q = map[string]interface{}{"and": []interface{}{map[string]interface{}{"or": branches}, map[string]interface{}{"pattern": last}}}
+			tpl.bound = append(tpl.bound, "x", "y")
+		}
+	}
+	if q != nil {
+	} else if lg.r.Intn(3) == 0 {
 		q = qg.query(3)
 	} else {
 		// and-chains give later terms incoming bindings
